@@ -114,7 +114,8 @@ PROPS = {
     "C08": dict(mod="IpamVerif.Props.C08", engine="hist", streams=[("hist", "hist", make_proj(["patches", "ccw", "events"], "nocursor", view=True)), ("frag", "hist", make_proj(["res", "patches", "ccw"], "full", api=True))], judge=("hist", {"C08"}), rule=HIST_RULE),
     "C09": dict(mod="IpamVerif.Props.C09", engine="hist", streams=[("svc", "hist", make_proj(["patches"], "full"))], judge=("hist", {"C09"}),
                 rule=HIST_RULE + "; profile 'svc': every first start and one restart in six is given a primary and/or secondary service range (inside, equal to, containing, smaller than a block, other family)"),
-    "C10": dict(mod="IpamVerif.Props.C10", engine="hist", streams=[("hist", "hist", make_proj(["res", "ccw", "cq"], "nocursor", api=True)), ("restart", "hist", make_proj(["res", "ccw", "cq"], "nocursor", api=True))],
+    "C10": dict(mod="IpamVerif.Props.C10", engine="hist", streams=[("hist", "hist", make_proj(["res", "ccw", "cq"], "nocursor", api=True)), ("restart", "hist", make_proj(["res", "ccw", "cq"], "nocursor", api=True)),
+                                                                    ("mal", "hist", make_proj(["res", "ccw"], "nocursor"))],
                 judge=("hist", {"C10"}), rule=HIST_RULE),
     "C11": dict(mod="IpamVerif.Props.C11", engine="hist", streams=[("drain", "hist", make_proj(["res", "patches", "ccw", "nq", "cq"], "nocursor", api=True))], judge=("hist", {"C11"}),
                 rule=HIST_RULE + "; profile 'drain': after the random prefix changes stop, writes succeed, every stale object is delivered and every queued key processed, round after round until nothing moves; the steady state is then judged"),
@@ -122,7 +123,7 @@ PROPS = {
                 judge=("hist", {"C12"}),
                 rule=HIST_RULE + "; profile 'mal': every sixth event injects hostile content - range strings (garbage, missing prefix, prefix out of range, other family, IPv4-mapped, unmasked, upper case), "
                      "perNodeHostBits over the whole int32 range, unrepresentable selectors, node pod CIDRs that do not parse or belong to no ClusterCIDR, tombstones, service ranges of either family; every step under recover and a watchdog"),
-    "C20": dict(mod="IpamVerif.Props.C20", engine="hist", streams=[("hist", "hist", make_proj(["mut"], "none")), ("restart", "hist", make_proj(["mut"], "none"))], judge=("hist", {"C20"}), rule=HIST_RULE),
+    "C20": dict(mod="IpamVerif.Props.C20", engine="hist", streams=[("hist", "hist", make_proj(["mut"], "none")), ("restart", "hist", make_proj(["mut"], "none")), ("mal", "hist", make_proj(["mut"], "none"))], judge=("hist", {"C20"}), rule=HIST_RULE),
     "C15": dict(mod="IpamVerif.Props.C15", engine="facts+conc", streams=[], judge=("conc", None),
                 rule="translator: call graph of package ipam regenerated from source, checker re-run by the Lean kernel; supporting validation: seeded workloads on the real Run "
                      "(30+30 workers, real rate-limiting queues, two informer goroutines, six API mutators, injected write failures) under the Go race detector; a case = one workload; "
